@@ -16,6 +16,7 @@ import (
 	"strconv"
 	"strings"
 	"sync"
+	"syscall"
 	"testing"
 	"time"
 
@@ -588,3 +589,14 @@ func AsyncViolations() int {
 
 // AsyncFailed tells TestMain to exit non-zero.
 func AsyncFailed() bool { return asyncFailed }
+
+// CPUSeconds returns the processor time (user + system) this process has used so far. A bounded-time check that must
+// tell microseconds from many seconds looks at it instead of at the wall clock: a busy machine stretches the wall
+// clock, not the work.
+func CPUSeconds() float64 {
+	var ru syscall.Rusage
+	if err := syscall.Getrusage(syscall.RUSAGE_SELF, &ru); err != nil {
+		return 0
+	}
+	return float64(ru.Utime.Sec) + float64(ru.Utime.Usec)/1e6 + float64(ru.Stime.Sec) + float64(ru.Stime.Usec)/1e6
+}
